@@ -52,9 +52,11 @@ func (kgdb *KVInterfaceGDB) AddVertex(vertices []*gdbi.Vertex) error {
 				bulkErr = multierror.Append(bulkErr, err)
 			}
 		}
-		kgdb.kvg.ts.Touch(kgdb.graph)
 		return bulkErr.ErrorOrNil()
 	})
+	if err == nil {
+		kgdb.kvg.ts.Touch(kgdb.graph)
+	}
 	return err
 }
 
@@ -127,9 +129,11 @@ func (kgdb *KVInterfaceGDB) AddEdge(edges []*gdbi.Edge) error {
 				bulkErr = multierror.Append(bulkErr, err)
 			}
 		}
-		kgdb.kvg.ts.Touch(kgdb.graph)
 		return bulkErr.ErrorOrNil()
 	})
+	if err == nil {
+		kgdb.kvg.ts.Touch(kgdb.graph)
+	}
 	return err
 }
 
@@ -152,6 +156,9 @@ func (kgdb *KVInterfaceGDB) BulkAdd(stream <-chan *gdbi.GraphElement) error {
 		}
 		return bulkErr.ErrorOrNil()
 	})
+	if err == nil {
+		kgdb.kvg.ts.Touch(kgdb.graph)
+	}
 	return err
 }
 
